@@ -2,8 +2,8 @@ import Litep2pVerif.Model.Bitswap.Prefix
 /-!
 # Bitswap response batching (C20)
 
-Operational model of `extract_next_batch`, `blocks_message` (size of the prost encoding only) and
-the block loop of `send_response` in `src/protocol/libp2p/bitswap/mod.rs`. The batching looks only
+Operational model of `extract_next_batch`, `blocks_message` / `presences_message` (size of the prost
+encoding only) and of `send_response` (presence message, then the block loop) in `src/protocol/libp2p/bitswap/mod.rs`. The batching looks only
 at `data.len()` and the encoding's size depends only on the lengths of prefix and data, so the
 model is generic in the block type `β` with the two length projections (`Sized β`).
 
@@ -97,8 +97,126 @@ def sendResponse (S : Sized β) (maxBatch cap maxMsg : Nat) (blocks : List β) :
 def sentBatches (steps : List (Step β)) : List (List β) :=
   (steps.filter (·.sent)).map (·.batch)
 
+/-! ## The whole of `send_response`: presence message first, then the block batches
+
+`send_response(substream, entries)` filters the `Presence` entries into ONE `presences_message`
+(`None` when there is none), writes it if its encoding is at most `MAX_MESSAGE_SIZE` and otherwise
+skips it with a warning; then it runs the block loop above. Every write goes through
+`Substream::send_framed`, whose codec (`UnsignedVarint(Some(codecMax))`, `bitswap/config.rs`) rejects
+a larger frame with an error; `send_response` propagates a write error at once (`return Err(..)`),
+i.e. nothing after the failed write is sent. -/
+
+/-- A proto3 `int32`/enum field with a one-byte key: omitted when 0. -/
+def pbEnumField (v : Nat) : Nat := if v = 0 then 0 else 1 + pbVarintLen v
+
+/-- `BlockPresence { cid = 1, type = 2 }` encoded. -/
+def presenceBodyLen (cidLen ty : Nat) : Nat := pbBytesField cidLen + pbEnumField ty
+
+/-- One `blockPresences = 4` entry of `Message`: key, length, body. -/
+def presenceEntryLen (cidLen ty : Nat) : Nat :=
+  1 + pbVarintLen (presenceBodyLen cidLen ty) + presenceBodyLen cidLen ty
+
+/-- What the code looks at in a `(Cid, BlockPresenceType)`: `cid.to_bytes().len()` and the enum
+value (`Have` = 0, `DontHave` = 1). -/
+structure PSized (π : Type) where
+  cidLen : π → Nat
+  ptype : π → Nat
+
+variable {π : Type}
+
+def PSized.entryLen (P : PSized π) (p : π) : Nat := presenceEntryLen (P.cidLen p) (P.ptype p)
+
+/-- `presences_message(ps).map(|(m, _)| m.len())`: `wantlist: Some(Default)` costs 2 bytes, then the
+presence entries; `None` when there is no presence. -/
+def presencesMessageLen (P : PSized π) (ps : List π) : Option Nat :=
+  if ps.isEmpty then none else some (2 + (ps.map P.entryLen).sum)
+
+/-- `ResponseType`. -/
+inductive Entry (π β : Type) where
+  | presence (p : π)
+  | block (b : β)
+  deriving DecidableEq, Repr
+
+/-- the first `filter_map` of `send_response` -/
+def presencesOf : List (Entry π β) → List π
+  | [] => []
+  | .presence p :: rest => p :: presencesOf rest
+  | .block _ :: rest => presencesOf rest
+
+/-- the second `filter_map` of `send_response` -/
+def blocksOf : List (Entry π β) → List β
+  | [] => []
+  | .presence _ :: rest => blocksOf rest
+  | .block b :: rest => b :: blocksOf rest
+
+/-- A message written to the substream, with the length of its encoding. -/
+inductive Frame (π β : Type) where
+  | presences (ps : List π) (len : Nat)
+  | blocks (batch : List β) (len : Nat)
+  deriving DecidableEq, Repr
+
+def Frame.len : Frame π β → Nat
+  | .presences _ len => len
+  | .blocks _ len => len
+
+/-- The batches carried by the block frames, in order. -/
+def blockBatches : List (Frame π β) → List (List β)
+  | [] => []
+  | .presences _ _ :: rest => blockBatches rest
+  | .blocks batch _ :: rest => batch :: blockBatches rest
+
+/-- Return value of `send_response` (`outOfFuel`: artefact of the fuel, excluded by the theorems). -/
+inductive SendResult where
+  | ok
+  | writeError
+  | outOfFuel
+  deriving DecidableEq, Repr
+
+/-- `send_framed` on a substream with the codec `UnsignedVarint(Some(codecMax))`: `check_size!`
+rejects a larger frame. No other write error and no timeout is modelled. -/
+def sendFramed (codecMax len : Nat) : Bool := decide (len ≤ codecMax)
+
+/-- The `while let` loop of `send_response` including the writes: a batch whose message is larger
+than `maxMsg` is skipped (warning), a failed write ends the function. -/
+def respondLoop (π : Type) (S : Sized β) (maxBatch cap maxMsg codecMax : Nat) :
+    Nat → List β → List (Frame π β) × SendResult
+  | 0, _ => ([], .outOfFuel)
+  | fuel + 1, blocks =>
+    match extractNextBatch S maxBatch cap blocks with
+    | none => ([], .ok)
+    | some (batch, rest) =>
+      match blocksMessageLen S batch with
+      | none => respondLoop π S maxBatch cap maxMsg codecMax fuel rest
+      | some len =>
+        if len ≤ maxMsg then
+          if sendFramed codecMax len then
+            (Frame.blocks batch len :: (respondLoop π S maxBatch cap maxMsg codecMax fuel rest).1,
+             (respondLoop π S maxBatch cap maxMsg codecMax fuel rest).2)
+          else ([], .writeError)
+        else respondLoop π S maxBatch cap maxMsg codecMax fuel rest
+
+/-- `send_response(substream, entries)`: what is written, and the return value. -/
+def respond (P : PSized π) (S : Sized β) (maxBatch cap maxMsg codecMax : Nat)
+    (entries : List (Entry π β)) : List (Frame π β) × SendResult :=
+  match presencesMessageLen P (presencesOf entries) with
+  | none => respondLoop π S maxBatch cap maxMsg codecMax ((blocksOf entries).length + 1) (blocksOf entries)
+  | some len =>
+    if len ≤ maxMsg then
+      if sendFramed codecMax len then
+        (Frame.presences (presencesOf entries) len ::
+          (respondLoop π S maxBatch cap maxMsg codecMax ((blocksOf entries).length + 1) (blocksOf entries)).1,
+         (respondLoop π S maxBatch cap maxMsg codecMax ((blocksOf entries).length + 1) (blocksOf entries)).2)
+      else ([], .writeError)
+    else respondLoop π S maxBatch cap maxMsg codecMax ((blocksOf entries).length + 1) (blocksOf entries)
+
+/-- Presences reduced to (CID length, type). -/
+def lenPres : PSized (Nat × Nat) := ⟨Prod.fst, Prod.snd⟩
+
 /-- The blocks of a real response: `(Cid, Vec<u8>)` with the prefix `blocks_message` writes. -/
 def wireBlocks : Sized (Cid × Bytes) := ⟨fun b => b.1.toPrefix.toBytes.length, fun b => b.2.length⟩
+
+/-- The presences of a real response: `(Cid, BlockPresenceType)`, `cid.to_bytes()` on the wire. -/
+def wirePres : PSized (Cid × Nat) := ⟨fun p => p.1.toBytes.length, Prod.snd⟩
 
 /-- Blocks reduced to (prefix length, data length). -/
 def lenPair : Sized (Nat × Nat) := ⟨Prod.fst, Prod.snd⟩
